@@ -8,7 +8,8 @@ THEOREMS = [("FlatModel.Props.C04", t) for t in ("FC.issued_reads", "FC.C04.stri
                                                   "FC.C04.string_write_paths_are_utf8", "FC.C04.storage_is_private")]
 LEAN_TARGETS = ["FlatModel.Generated.Covered"]
 PROFILES = {"quick": ["checked", "wrapping"], "thorough": ["checked", "wrapping"], "search": ["checked"]}
-RULE = ("string-bearing compositions under push / clear / clone / clone_from / merge_regions / serde histories with strings of "
+RULE = ("string-bearing compositions under push / clear / clone / clone_from / merge_regions / serde histories (for string(codec) also "
+        "dictionaries merged from 12-190 distinct multi-byte strings with low first bytes, then re-pushed) with strings of "
         "1-4 byte scalars, combining sequences, the empty string and adjacent multi-byte strings; every &str that leaves the crate "
         "(through index, ReadSlice and ReadColumns iteration) is re-validated with str::from_utf8 over its bytes in the harness and "
         "compared byte for byte with the shadow; plus the program-text facts (unsafe sites, Push impls of StringRegion) re-extracted "
@@ -74,6 +75,37 @@ def one(cat, rng, stack):
     return b.s
 
 
+def merged_dictionary(cat, rng, wide):
+    """string(codec): a dictionary built by merge_regions from a source with many distinct multi-byte strings whose first
+    bytes are low (tab, digits) — more dictionary entries than the smallest observed first byte, so that the tag walk of
+    `DictionaryCodec::new_from` has to step over occupied first bytes (round 9: a rewrite that lost the alignment of the
+    decode table with the tags was seen by C07 only). Every string pushed into the merged region is one of the source's
+    (all tagged: `C07.all_pushed_tagged`, fewer distinct strings than free tags) or the empty string; what is read back is
+    re-validated as UTF-8 in the harness and compared byte for byte."""
+    b = RB(ID, cat, rng, None)
+    b.idx_cmp = "status"
+    tails = ["\u00e9", "\u20ac", "\U0001d11e", "\u00e9\u20ac\U0001d11e", "a", ""]
+    n = (130 + rng.below(60)) if wide else (12 + rng.below(40))
+    vocab = []
+    for i in range(n):
+        head = "\t" if i == 0 else (str(i) if rng.below(4) else chr(97 + i % 5) + str(i))
+        vocab.append((head + rng.pick(tails)).encode("utf-8"))
+    vocab = list(dict.fromkeys(vocab))
+    b.new("s")
+    for w in vocab:
+        for _ in range(1 + rng.below(2)):
+            b.push("s", w, b.form_for(w), sig="string-push@" + b.entry)
+    b.merge("t", ["s"])
+    b.h["t"].merged = True
+    for _ in range(len(vocab) + rng.below(8)):
+        w = rng.pick(vocab) if rng.below(10) else b""
+        k, _ = b.push("t", w, b.form_for(w), sig="string-push@" + b.entry)
+        b.read("t", k, sig="string-read-differs")
+    b.readall("t", sig="string-read-differs")
+    b.s.nontrivial = True
+    return b.s
+
+
 def generate(seed, tier):
     rng = Rng(seed * 59 + 14)
     per = {"quick": 10, "thorough": 150, "search": 50}[tier]
@@ -84,4 +116,7 @@ def generate(seed, tier):
         for st in cat["stacks"][:1]:
             for i in range(max(1, per // 4)):
                 out.append(one(cat, rng.fork(), st))
+        if cat["entry"] == "string(codec)":
+            for i in range({"quick": 6, "thorough": 60, "search": 20}[tier]):
+                out.append(merged_dictionary(cat, rng.fork(), wide=(i % 3 == 2)))
     return out
